@@ -43,7 +43,7 @@ def run(chk):
     for i, (t, r) in enumerate(zip(traces, results)):
         ok = vlib.judge_trace(chk, r, 'Trace_Linear', t, 'Trace_Linear[%d]' % i, nruns=len(chunks[i]), key_of=key_of) and ok
     for k, t in jobs:
-        nbytes += 3 * (k + 8) * t
+        nbytes += 3 * (k + 8) * (t if t <= 300 else 130)       # above 300 octets ~130 projected byte positions are compared
     with open(traces[0]) as f:
         e = json.loads(f.readlines()[1])
         chk.sample({'k': e['k'], 't': e['t'], 'c': e['c'], 'route': e['route'], 'esis': e['esis'], 'pa[0]': e['pa'][0][:8], 'pb[0]': e['pb'][0][:8],
@@ -52,7 +52,7 @@ def run(chk):
     chk.cov['distinct_nontrivial'] = len({t for _, t in jobs}) if ok else 0
     chk.cov['symbol_sizes'] = [min(t for _, t in jobs), max(t for _, t in jobs)]
     chk.cov['rule'] = ('for each symbol size T (quick: every T in 1..130 plus 191/256/257, i.e. every residue of the 8/16/32/64-byte '
-                       'strides and more than two AVX-512 vectors; thorough: 1..300 and larger K) one block: packets (all source + 8 repair '
+                       'strides and more than two AVX-512 vectors, plus 12 large sizes up to 65535 on ~130 projected byte positions - both ends, around multiples of 4096, a random sample; thorough: 1..300, larger K, every multiple of 4096) one block: packets (all source + 8 repair '
                        'ESIs incl. a random 24-bit one, 65536 and 2^24-1) of A, B, A xor B, c*A and of each byte column of A at T=1, '
                        'alternating SourceBlockEncoder::new and one encoding plan reused across all T; evaluations = byte relations '
                        'checked by TLC; distinct_nontrivial = distinct symbol sizes')
